@@ -52,7 +52,7 @@ def setup():
 
 
 def plan(tier, seed):
-    n = 360 if tier == "quick" else 8000
+    n = 1000 if tier == "quick" else 8000
     return [["tmpl", i] for i in range(n)] + [["vsdirect", i] for i in range(n // 6)]
 
 
